@@ -32,6 +32,7 @@ type GenParams struct {
 	Comments         float64
 	Prefix           string
 	LenTies          bool // use a tiny palette so that ties between path lengths are frequent
+	PNegLen          float64 // probability of a negative branch length (neighbour-joining trees have them); never -1, the absent value
 	PSingle          float64 // probability that a non-root node gets a chain of 1-3 single-child nodes above it
 }
 
@@ -50,6 +51,9 @@ func genLen(r *rand.Rand, gp *GenParams, mode int) int64 {
 	}
 	if r.Float64() < gp.PZeroLen {
 		return 0
+	}
+	if gp.PNegLen > 0 && r.Float64() < gp.PNegLen {
+		return -(int64(1+r.Intn(15)) << 16) // -1/16 .. -15/16
 	}
 	if gp.LenTies {
 		return int64(1+r.Intn(3)) << 16
